@@ -111,6 +111,8 @@ def sources(tier, seed, ctx):
     for depth in ([1500] if tier == 'quick' else [1500, 4000]):
         srcs.append({'k': 'evaldeep', 'depth': depth})
         srcs.append({'k': 'evaldeep', 'depth': depth, 'rev': True})
+    for k in ([1200] if tier == 'quick' else [300, 1200, 5000]):
+        srcs.append({'k': 'evaldeep', 'fanin': k})
     # many inputs: tables of 512 .. 4096 rows through every entry point
     for ni in ([9, 11] if tier == 'quick' else [9, 10, 11, 12]):
         srcs.append({'k': 'evaldeep', 'wide': ni})
@@ -308,7 +310,34 @@ def record(src):
                 c.remove_gate('tmp_gate_of_the_past')
             except Exception:
                 pass
+        if src.get('vs', 0) % 5 == 2 and c.outputs:
+            # blocks and gates have separate namespaces: a block may be called what an output gate is called (it groups some
+            # OTHER gates); evaluation is about gates
+            others = [l for l in c.gates if l not in c.inputs and l != c.outputs[0]]
+            try:
+                if others:
+                    c.make_block(c.outputs[0], others[:2], others[:1])
+                c.make_block(c.outputs[-1] + '', [c.inputs[0]] if c.inputs else others[:1], []) if c.outputs[-1] not in c.blocks else None
+            except Exception:
+                pass
         return {'kind': 'eval', 'c': project(c), 'obs': observe_eval(c), 'src': src}
+    if src['k'] == 'evaldeep' and src.get('fanin'):
+        # single gates with more than a thousand operands (every n-ary type; operands cycle over three inputs, so the
+        # multiplicities matter for the parities)
+        k = src['fanin']
+        c = Circuit()
+        ins = ['x0', 'x1', 'x2']
+        c.add_inputs(ins)
+        order = list(ins)
+        for j, t in enumerate(['AND', 'OR', 'XOR', 'NAND', 'NOR', 'NXOR']):
+            ops = tuple(ins[(q + j) % 3] for q in range(k + j))
+            c.emplace_gate(f'f{t}', getattr(G, t), ops)
+            order.append(f'f{t}')
+        c.emplace_gate('top', G.XOR, tuple(order[3:]))
+        order.append('top')
+        c.set_outputs(['top', 'fNXOR', 'fAND'])
+        return {'kind': 'evaldeep', 'c': project(c, users=False, blocks=False), 'order': order, 'sample': list(order),
+                'obs': observe_eval(c, sample=list(order)), 'src': src}
     if src['k'] == 'evaldeep' and src.get('wide'):
         # many inputs (beyond 8): a parity / majority-like mix over all of them, every gate compared
         ni = src['wide']
